@@ -11,6 +11,8 @@
 //        character that has no encoding, `ok` when the whole input was converted; from_next/to_next as specified.
 //   in:  a sequence starts with a lead unit b of seqlen(b) in [1,4] units and decodes to one wchar_t wc(sequence);
 //        `partial` when the input ends inside a sequence (or no output space), `error` at an invalid lead unit.
+//        h_widen_absorb: variant where the facet keeps an incomplete trailing sequence in mbstate_t and returns `ok`
+//        (observed natively: libstdc++/glibc C.UTF-8, widen_locale("\xE2\x82") == L"" as success).
 //   `noconv` is not modelled: the standard only allows it when internT and externT are the same type.
 // Engine build: std::use_facet<codecvt_type>(locale) is redirected (//@stub) to return the model facet, the locale object
 // is never inspected; the base-class constructor/destructor (libstdc++.so) are redirected to no-ops.  Native replay build:
@@ -59,6 +61,10 @@ wchar_t in_wc(char const *const p, unsigned const len)
 }
 
 unsigned g_calls = 0;
+// h_widen_absorb only: an input that ends inside a sequence is taken into the shift state and `ok` is returned with all input
+// consumed - what libstdc++'s codecvt<wchar_t,char,mbstate_t>::do_in does on glibc (mbsnrtowcs keeps the partial character
+// in mbstate_t); the caller can see it through std::mbsinit(&state) == 0
+bool g_absorb = false;
 
 struct model_facet : base
 {
@@ -82,7 +88,7 @@ struct model_facet : base
     to_next = t;
     return r;
   }
-  result do_in(state_type &, char const *const from, char const *const from_end, char const *&from_next, wchar_t *const to,
+  result do_in(state_type &st, char const *const from, char const *const from_end, char const *&from_next, wchar_t *const to,
                wchar_t *const to_end, wchar_t *&to_next) const override
   {
     ++g_calls;
@@ -93,7 +99,12 @@ struct model_facet : base
     {
       if (in_err(*f)) { r = error; break; }
       unsigned const len{in_len(*f)};
-      if (static_cast<unsigned long>(from_end - f) < len) { r = partial; break; } // input ends inside a sequence
+      if (static_cast<unsigned long>(from_end - f) < len) // input ends inside a sequence
+      {
+        if (g_absorb) { st.__count = static_cast<int>(from_end - f); f = from_end; }
+        else r = partial;
+        break;
+      }
       if (t == to_end) { r = partial; break; }
       *t++ = in_wc(f, len);
       f += len;
@@ -205,14 +216,16 @@ widen_case make_widen()
   return c;
 }
 
-void widen_impl()
+void widen_impl(bool const absorb)
 {
+  g_absorb = absorb;
   widen_case const c{make_widen()};
   env const e{};
   fcppt::optional::object<std::wstring> const r{fcppt::impl::codecvt<wchar_t>(std::string_view{c.in, c.n}, e.locale(), &base::in)};
   verif_out("has", r.has_value());
   verif_out("calls", g_calls);
-  verif_assert(!(c.fail && r.has_value()), "codecvt(in) reports failure for an invalid or incomplete sequence");
+  verif_assert(!(c.fail && r.has_value()), absorb ? "codecvt(in) reports failure when the input ends inside a sequence that the facet absorbed into the shift state"
+                                                  : "codecvt(in) reports failure for an invalid or incomplete sequence");
   verif_assert(!(!c.fail && !r.has_value()), "codecvt(in) succeeds on a well-formed input");
   if (r.has_value() && !c.fail)
   {
@@ -258,11 +271,13 @@ extern "C" void verif_facet_dtor(void *) {}
 #endif
 
 VERIF_HARNESS(h_narrow) { narrow(); }
-VERIF_HARNESS(h_widen_impl) { widen_impl(); }
+VERIF_HARNESS(h_widen_impl) { widen_impl(false); }
+VERIF_HARNESS(h_widen_absorb) { widen_impl(true); }
 VERIF_HARNESS(h_widen_ok) { widen_ok(); }
 VERIF_HARNESS(h_widen_fail) { widen_fail(); }
 //@harness h_narrow param n=0..3 tier=quick loop=40
 //@harness h_widen_impl param n=0..3 tier=quick loop=40
+//@harness h_widen_absorb param n=1..3 tier=quick loop=40
 //@harness h_widen_ok param n=0..3 tier=quick loop=40
 //@harness h_widen_fail param n=1..3 tier=quick loop=40 throws=_ZTISt13runtime_error
 //@harness h_narrow param n=4 tier=thorough loop=40
